@@ -51,9 +51,13 @@ class TilingOracle(Oracle):
         for c in calls:
             check_split(ctx.cfg["part"], ctx.cfg.get("K"), c["parent"], c["children"], "(round %d)" % ctx.t)
         if calls:
-            for P in partitions_of(ctx.algo):
+            for P in {id(c["partition"]): c["partition"] for c in calls}.values():
                 check_tiling(P, "(round %d)" % ctx.t)
             ctx.extra["stats"].bump("expansions", len(calls))
+
+    def end(self, ctx):
+        for P in partitions_of(ctx.algo):
+            check_tiling(P, "(end of run)", pairwise_max=150)
 
     def begin(self, ctx):
         for c in ctx.rec.calls:
